@@ -1,6 +1,7 @@
 import YarlProofs.C18
 import YarlProofs.C18Full
 import YarlProofs.C18More
+import YarlProofs.C18Reach
 /-!
 # C18 — human_repr() is readable and round-trips   (audit layer)
 
@@ -37,11 +38,15 @@ identity, every non-ASCII character except U+200B is printable); `HumanMore.trip
 build → human_repr → URL(…): `(five stored parts of u, u.human_repr(), error or (five parts of v = URL(hr), v == u))`,
 `HumanMore.tripCtor e s` the same for `u = URL(s)`.
 
+Definitions of C18Reach.lean (+ Lemmas/HumanReach.lean) — `StoresOK`, `HumanReach`, `HOp`, `HOp.Ok`, `QueryArgOf`,
+`pathArgTail`, `nameTail`, `joinPathD`, … — are explained at the head of the section "the round trip for CHAINS OF
+MODIFIERS" below.
+
 Fixes followed since this file was first written: 60dbf1e (an IDN host whose A-label ends in a digit is decoded),
 e21485a (`build` lower-cases the scheme, so an upper-case scheme round-trips: `C18_headline_roundtrip_upper_scheme`).
 -/
 namespace Yarl
-open HumanLemmas HumanFull HumanMore HumanRelax QueryUrl QsLemmas NetlocLemmas
+open HumanLemmas HumanFull HumanMore HumanRelax QueryUrl QsLemmas NetlocLemmas PathAlg PathLemmas PathMore HumanReach
 
 /-! ## Sentence 1, first half — the round trip -/
 
@@ -376,6 +381,216 @@ theorem C18_headline_roundtrip_port_default (e : Env) (sc : Str) (user pw : Opti
       port e u = .ok (some pt) :=
   C18_roundtrip_port_default e sc user pw h H D pt p kvs f vs hk.rt hpt hd hu hune hw hp hn hg hf hfn
 
+/-! ## Sentence 1, first half — the round trip for CHAINS OF MODIFIERS (closes the open part of GAPS 2(e); theorems of
+    C18Reach.lean + Lemmas/HumanReach.lean).  Same NFKC proviso (F-C18-nfkc-userinfo).
+
+  Definitions of C18Reach.lean used below.
+  `StoresOK e u user pw H port p kvs f` — `Stores e u user pw H port p kvs f` bundled with the side conditions of
+  `C18_headline_roundtrip_stored` (spelled out in `C18_headline_reachable_stores`): a valid stored scheme, a stored host
+  `H` of one of the kinds of `HostKind`, a port in range, texts without lone surrogates, a user that is not "", a decoded
+  path without dot segments.
+  `HumanReach.HOp` — the modifiers of the public API with DECODED arguments: withScheme, withUser, withPassword, withHost,
+  withPort, withPath s kq kf, withQuery a kvs / extendQuery a kvs (the argument and the decoded pairs it denotes),
+  updateQuery kvs (a sequence of pairs), withoutQueryParams, withFragment, withName, withSuffix, joinpath ps (`/` and
+  `joinpath(*ps)`), parent, origin.  `HOp.toUOp` — the operation of C01Reach.lean (`UOp`, `applyOp`) it is
+  (`encoded=False`).  `HOp.Ok e op` — the conditions on the decoded arguments: texts are Python strings without lone
+  surrogates, a scheme text (`SchemeText`), a host of one of the kinds of `HostKind`, a port ≤ 65535, a query argument
+  that renders to the text of the given decoded pairs (`getStrQuery e.b a = .ok (some (qtext e.b kvs))`, `GoodPairs kvs`),
+  a non-empty list of joinpath segments.  NO condition says that the operation succeeds: `HumanReach.step` asks for
+  `applyOp e u op.toUOp = .ok v`.
+  `HumanReach e u` — `u` is obtained from `URL.build(scheme=, user=, password=, host=, port=, path=, query=, fragment=)`
+  with decoded components (`HumanReach.build`: the hypotheses of `C18_headline_stores_build`), or from
+  `URL.build(scheme=, authority=A, …)` with `A` assembled from decoded pieces (`HumanReach.buildAuthority`), by any finite
+  chain of `HOp` steps whose arguments satisfy `HOp.Ok`.  NOT in `HumanReach`: `join`, the constructor `URL(s)`
+  (C18_headline_roundtrip_constructor), `encoded=True` calls, with_query / extend_query with a STRING outside the
+  `k=v&…` form (C18_headline_roundtrip_fails_for_query_string).
+  `QueryArgOf b qa kvs` — the `query=` argument `qa` of `build` renders to the text of the pairs `kvs`, or is absent and
+  `kvs = []`.  `dropEmpty x` — a user given as "" is no user.  `effPort sc port` — the port `build` keeps (the scheme's
+  default is dropped).  `pathTail path` — the decoded path `build` stores (dot segments removed, without the leading "/").
+  `pathArgTail s` — the same for the argument of `with_path` (made rooted first).  `nameTail p nm` — `p` with its last
+  segment replaced by `nm`; `lastSeg p`, `stem nm` — the last segment, a name without its suffix; `parentTail p` — `p`
+  without its last segment; `pathD u p` — the decoded path ("" for an empty stored path, else "/" ++ p);
+  `joinPathD P ps` — `_make_child` computed on the DECODED path and segments. -/
+
+/-- "For every absolute URL built from decoded components … URL(u.human_repr()) == u" for every URL obtained from
+    `URL.build` with decoded components by ANY finite chain of modifiers with decoded arguments — with_scheme, with_user,
+    with_password, with_host, with_port, with_path, with_query, extend_query, update_query, without_query_params,
+    with_fragment, with_name, with_suffix, `/` and joinpath, parent, origin — under the NFKC proviso when the shown
+    authority is not ASCII.  Cites `C18_roundtrip_reachable`. -/
+theorem C18_headline_roundtrip_reachable (e : Env) (u : Url)
+    (hr : HumanReach e u) :                         -- built from decoded components + a chain of modifiers (see above)
+    ∀ t, humanRepr e u = .ok t →
+      -- NFKC proviso (known finding F-C18-nfkc-userinfo: `C18_headline_roundtrip_fails_for`)
+      (isAscii (Rfc.appendixB Gen.schemeChars t).authority = false →
+        checkNetloc e.o (Rfc.appendixB Gen.schemeChars t).authority = .ok ()) →
+      ∃ v, encodeUrl e t = .ok v ∧ Url.beq v u = true :=
+  C18_roundtrip_reachable e u hr
+
+/-- … because every URL of such a chain STORES the encodings of decoded components, and these satisfy the side
+    conditions of `C18_headline_roundtrip_stored` — `StoresOK` spelled out.  So the hypotheses `Stores` and `hnorm` of
+    the master theorem are DISCHARGED for `HumanReach` (GAPS 8).  Cites `C18_reach_stores_spelled`. -/
+theorem C18_headline_reachable_stores (e : Env) (u : Url) (hr : HumanReach e u) :
+    ∃ (user pw : Option Str) (h H D : Str) (port : Option Nat) (p : Str) (kvs : List (Str × Str)) (f : Str),
+      Stores e u user pw H port p kvs f ∧
+      ValidScheme u.scheme ∧ HostKind e h H D ∧ (∀ x, port = some x → x ≤ 65535) ∧
+      UText user ∧ (∀ s, user = some s → s ≠ []) ∧ UText pw ∧
+      PyStr (47 :: p) ∧ NoSurrogate (47 :: p) ∧ normalizePath (47 :: p) = 47 :: p ∧
+      GoodPairs kvs ∧ PyStr f ∧ NoSurrogate f :=
+  C18_reach_stores_spelled e u hr
+
+/-- `URL.build` ESTABLISHES `StoresOK`.  (i) `build(scheme=SC, user=…, password=…, host=h, port=…, path=…, query=qa,
+    fragment=f)` with DECODED components: a scheme text in any case, a host of one of the kinds of `HostKind`, an EMPTY or
+    rooted path (dot segments allowed), a query argument denoting the pairs `kvs` — a user "" is no user, the default
+    port of the scheme is dropped, dot segments are removed.  (ii) `build(scheme=SC, authority=A, …)` where the authority
+    text `A` is `[user[:password]@]host[:port]` ASSEMBLED FROM DECODED PIECES: the decoded user (`UserOK`: not "" and
+    without ':', so that `split_netloc` cuts it off again) and password, the SHOWN host `D` (in brackets iff it contains
+    ':'), the port; `build` encodes user and password and stores the host as `H`; when `A` is not ASCII the NFKC check
+    of `build` must accept it (`hnf`; F-C18-nfkc-userinfo).  Cites `C18_stores_build`, `C18_stores_build_authority`. -/
+theorem C18_headline_stores_build (e : Env) (SC : Str) (user pw : Option Str) (h H D : Str) (port : Option Nat)
+    (path : Str) (qa : QArg) (kvs : List (Str × Str)) (f : Str)
+    (hSC : SchemeText SC)                           -- "absolute": non-empty, scheme characters, any case
+    (hk : HostKind e h H D)                         -- reg-name / IDN / IPv4 / IPv6 host
+    (hport : ∀ x, port = some x → x ≤ 65535)        -- guard: `build` rejects other ports
+    (hu : UText user) (hw : UText pw)               -- no lone surrogates
+    (hpath : path = [] ∨ ∃ p, path = 47 :: p ∧ PyStr (47 :: p) ∧ NoSurrogate (47 :: p))  -- empty or rooted path
+    (hqa : QueryArgOf e.b qa kvs)                   -- the pairs the `query=` argument denotes
+    (hg : GoodPairs kvs) (hf : PyStr f) (hfn : NoSurrogate f) :   -- no lone surrogates
+    (∃ u, build e { scheme := SC, user := user, password := pw, host := h, port := port.map Int.ofNat,
+                    path := path, query := qa, fragment := f } = .ok u ∧ u.scheme = lower SC ∧
+      StoresOK e u (dropEmpty user) pw H (effPort (lower SC) port) (pathTail path) kvs f) ∧
+    (UserOK user →                                  -- user absent, or non-empty without ':'
+      (isAscii (authText user pw D port) = false → checkNetloc e.o (authText user pw D port) = .ok ()) →  -- NFKC proviso
+      ∃ u, build e { scheme := SC, authority := authText user pw D port, path := path, query := qa,
+                     fragment := f } = .ok u ∧ u.scheme = lower SC ∧
+        StoresOK e u user pw H (effPort (lower SC) port) (pathTail path) kvs f) :=
+  ⟨C18_stores_build e SC user pw h H D port path qa kvs f hSC hk hport hu hw hpath hqa hg hf hfn,
+   fun huo hnf => C18_stores_build_authority e SC user pw h H D port path qa kvs f hSC hk hport hu huo hw hnf hpath
+     hqa hg hf hfn⟩
+
+/-- EVERY modifier of the public API, applied with DECODED arguments, PRESERVES `StoresOK`, with the explicitly updated
+    decoded component (GAPS 2(e): with_password, with_host, with_port, with_scheme, with_path, with_name, with_suffix,
+    joinpath with several segments / '.', with_user, with_query, extend_query, update_query, without_query_params,
+    with_fragment, parent, origin):
+    with_password — `None` removes the password, "" stores the EMPTY password; with_host — a host of one of the kinds
+    of `HostKind`, stored as `H'`; with_port — stored AS GIVEN, also the default port of the scheme, also 0; with_scheme —
+    a scheme text in any case, stored lower-case, the netloc kept AS IT IS (a stored port that is the default of the new
+    scheme stays: `C18_headline_with_port_default_kept`); with_path — ANY decoded text, empty, rooted or not, with or
+    without dot segments; with_name — a decoded name without "/" that is not "." or ".."; with_suffix — whenever it
+    succeeds (stem and suffix are cut on the ENCODED name, and the cut commutes with the encoding); joinpath / `/` — ANY
+    number of decoded segment texts not starting with "/" ("/" inside and dot segments allowed), query and fragment are
+    dropped; with_user — `None` removes user AND password, "" leaves no user; with_query / extend_query — an argument that
+    renders to the text of decoded pairs; update_query — a sequence of pairs, `MultiDict(old).update(new)` on the decoded
+    pairs; parent, origin.  Cites the sixteen `C18_stores_*` theorems. -/
+theorem C18_headline_modifiers_preserve_stores (e : Env) (u : Url) (user pw : Option Str) (H : Str)
+    (port : Option Nat) (p : Str) (kvs : List (Str × Str)) (f : Str)
+    (ok : StoresOK e u user pw H port p kvs f) :    -- `u` stores the encodings of the decoded components (+ side conditions)
+    (∀ pw' : Option Str, UText pw' →
+      ∃ v, withPassword e u pw' = .ok v ∧ StoresOK e v user pw' H port p kvs f) ∧
+    (∀ h' H' D' : Str, HostKind e h' H' D' →
+      ∃ v, withHost e u h' = .ok v ∧ StoresOK e v user pw H' port p kvs f) ∧
+    (∀ port' : Option Nat, (∀ x, port' = some x → x ≤ 65535) →
+      ∃ v, withPort e u (port'.map Int.ofNat) 0 = .ok v ∧ StoresOK e v user pw H port' p kvs f) ∧
+    (∀ SC : Str, SchemeText SC →
+      ∃ v, withScheme e u SC = .ok v ∧ v.scheme = lower SC ∧ StoresOK e v user pw H port p kvs f) ∧
+    (∀ (s : Str) (kq kf : Bool), PyStr s → NoSurrogate s →
+      StoresOK e (withPath e u s false kq kf) user pw H port (pathArgTail s)
+        (if kq then kvs else []) (if kf then f else [])) ∧
+    (∀ (nm : Str) (kq kf : Bool), PyStr nm → NoSurrogate nm → 47 ∉ nm → (nm ≠ dot ∧ nm ≠ dotdot) →
+      ∃ v, withName e u nm kq kf = .ok v ∧
+        StoresOK e v user pw H port (nameTail p nm) (if kq then kvs else []) (if kf then f else [])) ∧
+    (∀ (x : Str) (kq kf : Bool) (v : Url), PyStr x → NoSurrogate x → withSuffix e u x kq kf = .ok v →
+      StoresOK e v user pw H port (nameTail p (stem (lastSeg p) ++ x)) (if kq then kvs else [])
+        (if kf then f else [])) ∧
+    (∀ (x : Str) (kq kf : Bool), PyStr x → NoSurrogate x → (x = [] ∨ x.head? = some 46) → x ≠ [46] → 47 ∉ x →
+      lastSeg p ≠ [] → (stem (lastSeg p) ++ x ≠ dot ∧ stem (lastSeg p) ++ x ≠ dotdot) →
+      ∃ v, withSuffix e u x kq kf = .ok v) ∧
+    (∀ ps : List Str, ps ≠ [] → (∀ a ∈ ps, PyStr a ∧ NoSurrogate a) → (∀ a ∈ ps, a.head? ≠ some 47) →
+      ∃ v, makeChild e u ps false = .ok v ∧
+        StoresOK e v user pw H port ((joinPathD (pathD u p) ps).drop 1) [] []) ∧
+    (∀ usr' : Option Str, UText usr' →
+      ∃ v, withUser e u usr' = .ok v ∧
+        StoresOK e v (dropEmpty usr') (if usr'.isSome then pw else none) H port p kvs f) ∧
+    (∀ (a : QArg) (kvs' : List (Str × Str)), getStrQuery e.b a = .ok (some (qtext e.b kvs')) → GoodPairs kvs' →
+      (∃ v, withQuery e u a = .ok v ∧ StoresOK e v user pw H port p kvs' f) ∧
+      (∃ v, extendQuery e u a = .ok v ∧ StoresOK e v user pw H port p (kvs ++ kvs') f)) ∧
+    (∀ kvs' : List (Str × Str), GoodPairs kvs' →
+      ∃ v, updateQuery e u (.pairs (strItems kvs')) = .ok v ∧
+        StoresOK e v user pw H port p (mdUpdate kvs kvs') f) ∧
+    (∀ names : List Str,
+      ∃ v, withoutQueryParams e u names = .ok v ∧
+        StoresOK e v user pw H port p (kvs.filter (fun kv => !names.contains kv.1)) f) ∧
+    (∀ f' : Option Str, UText f' → StoresOK e (withFragment e u f') user pw H port p kvs (f'.getD [])) ∧
+    StoresOK e (parent u) user pw H port (parentTail p) [] [] ∧
+    (∃ v, origin e u = .ok v ∧ StoresOK e v none none H port [] [] []) :=
+  ⟨fun pw' hw' => C18_stores_with_password e u user pw H port p kvs f ok pw' hw',
+   fun h' H' D' hk' => C18_stores_with_host e u user pw H port p kvs f ok h' H' D' hk',
+   fun port' hr => C18_stores_with_port e u user pw H port p kvs f ok port' hr,
+   fun SC hSC => C18_stores_with_scheme e u user pw H port p kvs f ok SC hSC,
+   fun s kq kf hs hsn => C18_stores_with_path e u user pw H port p kvs f ok s hs hsn kq kf,
+   fun nm kq kf hnm hnn h47 hd => C18_stores_with_name e u user pw H port p kvs f ok nm hnm hnn h47 hd kq kf,
+   fun x kq kf v hx hxn h => C18_stores_with_suffix e u user pw H port p kvs f ok x hx hxn kq kf v h,
+   fun x kq kf hx hxn hhead hne h47 hnm hd =>
+     C18_with_suffix_total e u user pw H port p kvs f ok x hx hxn kq kf hhead hne h47 hnm hd,
+   fun ps hne hgs hh => C18_stores_joinpath e u user pw H port p kvs f ok ps hne hgs hh,
+   fun usr' hu' => C18_stores_with_user e u user pw H port p kvs f ok usr' hu',
+   fun a kvs' ha hg' => ⟨C18_stores_with_query e u user pw H port p kvs f ok a kvs' ha hg',
+     C18_stores_extend_query e u user pw H port p kvs f ok a kvs' ha hg'⟩,
+   fun kvs' hg' => C18_stores_update_query e u user pw H port p kvs f ok kvs' hg',
+   fun names => C18_stores_without_query_params e u user pw H port p kvs f ok names,
+   fun f' hf' => C18_stores_with_fragment e u user pw H port p kvs f ok f' hf',
+   C18_stores_parent e u user pw H port p kvs f ok,
+   C18_stores_origin e u user pw H port p kvs f ok⟩
+
+/-- … and the master round trip for `StoresOK` (`C18_headline_roundtrip_stored` with the bundle).
+    Cites `C18_roundtrip_storesOK`. -/
+theorem C18_headline_roundtrip_stores_ok (e : Env) (u : Url) (user pw : Option Str) (H : Str) (port : Option Nat)
+    (p : Str) (kvs : List (Str × Str)) (f : Str) (ok : StoresOK e u user pw H port p kvs f) :
+    ∀ hr, humanRepr e u = .ok hr →
+      (isAscii (Rfc.appendixB Gen.schemeChars hr).authority = false →            -- NFKC proviso (F-C18-nfkc-userinfo)
+        checkNetloc e.o (Rfc.appendixB Gen.schemeChars hr).authority = .ok ()) →
+      ∃ v, encodeUrl e hr = .ok v ∧ Url.beq v u = true :=
+  C18_roundtrip_storesOK e u user pw H port p kvs f ok
+
+/-- CORNER checked, NO restriction needed: `with_port(80)` on an http URL, and `with_scheme("http")` on an https URL with
+    port 80, KEEP the port in the netloc (unlike `build`, which drops it); `human_repr()` shows the explicit port (its rule
+    is `explicit_port`, not "non-default port"), `URL(…)` of it keeps it too, and `==` holds.  Both backends (oracle
+    `HumanMore.demo`).  Cites `C18_with_port_default_kept`. -/
+theorem C18_headline_with_port_default_kept : ∀ b : Backend,
+    let e : Env := ⟨b, demo⟩
+    (do let u ← build e { scheme := "http".toStr, host := "example.com".toStr, path := "/p".toStr }
+        let w ← withPort e u (some 80) 0
+        let hr ← humanRepr e w
+        let v ← encodeUrl e hr
+        pure (u.netloc, w.netloc, hr, v.netloc, v.beq w) : R (Str × Str × Str × Str × Bool)) =
+      .ok ("example.com".toStr, "example.com:80".toStr, "http://example.com:80/p".toStr, "example.com:80".toStr, true) ∧
+    (do let u ← build e { scheme := "https".toStr, host := "example.com".toStr, port := some 80, path := "/p".toStr }
+        let w ← withScheme e u "http".toStr
+        let hr ← humanRepr e w
+        let v ← encodeUrl e hr
+        pure (u.netloc, w.netloc, hr, v.netloc, v.beq w) : R (Str × Str × Str × Str × Bool)) =
+      .ok ("example.com:80".toStr, "example.com:80".toStr, "http://example.com:80/p".toStr, "example.com:80".toStr,
+        true) :=
+  C18_with_port_default_kept
+
+/-- NON-VACUITY of `HumanReach` / `C18_headline_roundtrip_reachable`, both backends (oracle `HumanReach.demoIdn`: NFKC is
+    the identity, every non-ASCII character except U+200B is printable, IDNA knows `bücher.example` ↔
+    `xn--bcher-kva.example`): `URL.build(scheme="HTTP", host="example.com", port=80, path="/")` (`demoStart`) followed by
+    with_user("ü s"), with_password("p:w"), with_host("bücher.example"), with_port(8080), with_path("/a b/ç"), / "x y",
+    with_query([("k","v w"),("é","&=")]), extend_query({"n": 5}), with_fragment("frag ment") (`demoOps`) IS the URL
+    `demoEnd`, it satisfies `HumanReach`, its `human_repr()` is
+    `http://ü s:p%3Aw@bücher.example:8080/a b/ç/x y?k=v w&é=%26%3D&n=5#frag ment`, and `URL(…)` of that is `==` it.
+    Cites `C18_reach_chain`, `C18_reach_chain_roundtrip`. -/
+theorem C18_headline_reachable_chain_example : ∀ b : Backend,
+    (do let u ← build ⟨b, demoIdn⟩ demoStart; runChain ⟨b, demoIdn⟩ u demoOps : R Url) = .ok demoEnd ∧
+    HumanReach ⟨b, demoIdn⟩ demoEnd ∧
+    humanRepr ⟨b, demoIdn⟩ demoEnd =
+      .ok "http://ü s:p%3Aw@bücher.example:8080/a b/ç/x y?k=v w&é=%26%3D&n=5#frag ment".toStr ∧
+    (∃ v, encodeUrl ⟨b, demoIdn⟩
+        "http://ü s:p%3Aw@bücher.example:8080/a b/ç/x y?k=v w&é=%26%3D&n=5#frag ment".toStr = .ok v ∧
+      Url.beq v demoEnd = true) :=
+  fun b => ⟨(C18_reach_chain b).1, (C18_reach_chain b).2, (C18_reach_chain_roundtrip b).1,
+    (C18_reach_chain_roundtrip b).2.1⟩
+
 /-! ## Sentence 1, second half — readable -/
 
 /-- "human_repr() shows printable non-ASCII text … rather than escaped": in every component, a printable
@@ -573,7 +788,8 @@ GAPS:
     hosts): NFKC check of `split_url` (C18_headline_roundtrip_fails_for).  Proved only under the proviso
     "the NFKC check accepts the shown authority"; no characterisation of WHICH user/password texts pass
     (it depends on the `unicodedata` oracle).
- 2. PARTLY CLOSED by the theorems of C18More.lean (all under the NFKC proviso of item 1), family by family:
+ 2. PARTLY CLOSED by the theorems of C18More.lean and C18Reach.lean (all under the NFKC proviso of item 1), family by
+    family:
     (a) empty path with an authority — CLOSED by C18_roundtrip_empty_path, see C18_headline_roundtrip_empty_path
         (`build` without a path, any user / password, port, query pairs, fragment: shown with "/", `==` holds);
     (b) a user given as "" next to a password, an empty password — CLOSED by C18_roundtrip_empty_user /
@@ -589,14 +805,34 @@ GAPS:
         they hold for every string made of the encodings: C18_roundtrip_constructor_canonical, C18More.lean, not
         restated here); FALSE without them (C18_headline_roundtrip_fails_for_constructor:
         `URL("http://example.com/a%2Fb")`, a literal ';' in the query, `%FF`) — not "built from decoded components";
-    (e) URLs made by modifiers — CLOSED for with_fragment, with_query, with_user and `u / s` (ONE segment text
+    (e) URLs made by modifiers — CLOSED (except `join`; see the end of this item) for with_fragment, with_query,
+        with_user and `u / s` (ONE segment text
         without a leading "/" and without '.', on a non-empty path): C18_roundtrip_with_fragment / _with_query /
         _with_user / _truediv, see C18_headline_roundtrip_modifiers; for ANY producer the master theorem
         C18_roundtrip_stored (see C18_headline_roundtrip_stored) reduces the round trip to the statement `Stores`
-        ("the object stores the encodings of decoded components").  STILL OPEN: no theorem that the results of
-        with_password, with_host, with_port, with_scheme, with_path, with_name, with_suffix, update_query,
-        extend_query, without_query_params, joinpath with several segments or a segment containing '.', join,
-        parent, origin satisfy `Stores`; `build(authority=…)` (not decoded components) is not covered either;
+        ("the object stores the encodings of decoded components").  The part that was open — with_password,
+        with_host, with_port, with_scheme, with_path, with_name, with_suffix, update_query, extend_query,
+        without_query_params, joinpath with several segments or a segment containing '.', parent, origin, and
+        `build(authority=…)` — is now CLOSED by C18_stores_with_password / _with_host / _with_port / _with_scheme /
+        _with_path / _with_name / _with_suffix (+ C18_with_suffix_total) / _joinpath / _with_user / _with_query /
+        _extend_query / _update_query / _without_query_params / _with_fragment / _parent / _origin, C18_stores_build,
+        C18_stores_build_authority, C18_reach_stores_spelled, C18_roundtrip_reachable (C18Reach.lean +
+        Lemmas/HumanReach.lean), see C18_headline_roundtrip_reachable, C18_headline_reachable_stores,
+        C18_headline_stores_build, C18_headline_modifiers_preserve_stores, C18_headline_roundtrip_stores_ok,
+        C18_headline_reachable_chain_example: every one of these modifiers, applied with DECODED arguments, preserves
+        `StoresOK` (= `Stores` + the side conditions of the master theorem) with the explicitly updated decoded
+        component, `build` establishes it, hence `URL(u.human_repr()) == u` (NFKC proviso) for every URL obtained from
+        `build` by ANY finite chain of them (`HumanReach`).  Corners checked, no restriction needed: with_port(80) /
+        with_scheme keep a default port in the netloc and it round-trips (C18_headline_with_port_default_kept);
+        with_suffix on a name with escape-looking text (C18_with_suffix_escape_looking, C18Reach.lean).
+        WHAT REMAINS of (e): `join` is not an operation of `HumanReach` (no `Stores` theorem for its result);
+        `build(authority=A)` is covered only for `A` ASSEMBLED FROM DECODED PIECES — user not "" and without ':'
+        (`UserOK`), shown host, port; when `A` is not ASCII the NFKC check of `build` itself must accept it — not for an
+        arbitrary raw authority text; update_query only with a sequence of (key, value) pairs; with_query / extend_query
+        with an argument that renders to the text of decoded pairs (a STRING outside the `k=v&…` form does not: item (c));
+        chains that START at the constructor `URL(s)` need `StoresOK` of the start (`Stores`: item (d), plus its side
+        conditions) and then
+        C18_headline_modifiers_preserve_stores step by step — `HumanReach` itself starts at `build`;
     (f) schemes with upper case — CLOSED by C18_roundtrip_upper_scheme, see C18_headline_roundtrip_upper_scheme
         (unconditional since fix e21485a: `build` stores the scheme lower-case; the URL built with `SC` is the URL
         built with `SC.lower()`);
@@ -626,9 +862,16 @@ GAPS:
  8. (new) Side conditions of the closing theorems.  `Stores` (master, modifiers) is a hypothesis; it is discharged
     for `build` results (`builtFull_stores`, `stores_built`), canonical constructor strings (`stores_ctor`), accessor
     conditions (`stores_of_accessors`) and the four modifiers of 2(e) (`stores_withFragment`, `stores_withQuery`,
-    `stores_withUser`, `stores_child`) in Lemmas/HumanMore.lean — not for other producers (see 2(e)).  The
+    `stores_withUser`, `stores_child`) in Lemmas/HumanMore.lean — and NOW for every modifier of the public API except
+    `join` and for `build(authority=<assembled from decoded pieces>)` (C18_headline_modifiers_preserve_stores,
+    C18_headline_stores_build; `HumanReach`), see 2(e).  The
     decoded path of `Stores` must be free of dot segments (`normalizePath ("/" ++ p) = "/" ++ p`): true of every stored
-    path of an absolute URL, but a HYPOTHESIS here (`hnorm`).  The counterexamples of 2(c), 2(d) and the minimality computations of
+    path of an absolute URL, but a HYPOTHESIS of the master theorem (`hnorm`) — DISCHARGED for `HumanReach`
+    (C18_headline_reachable_stores: it is a field of `StoresOK`, established by `build` and kept by every modifier).
+    `HumanReach` asks of each step that it SUCCEEDS (`applyOp … = .ok v`); totality is proved where stated (the `∃ v`
+    clauses of C18_headline_modifiers_preserve_stores; with_suffix: its `C18_with_suffix_total` clause).  The
+    non-vacuity chain (C18_headline_reachable_chain_example) is evaluated with the demonstration oracle
+    `HumanReach.demoIdn`.  The counterexamples of 2(c), 2(d) and the minimality computations of
     item 6 are evaluated with the demonstration oracle `HumanMore.demo`.
 -/
 end Yarl
